@@ -160,6 +160,7 @@ func (g *gen) serveTables() {
 		}
 		g.serveConditions(f, consts)
 		g.serveEOFForm(f)
+		g.responseCheckerFunnel(f)
 	}
 	if f := g.parse("internal/stream/reader.go"); f != nil {
 		g.wsCloseFacts(f)
@@ -437,4 +438,70 @@ func (g *gen) serveEOFForm(f *ast.File) {
 	g.p("(* Session.Serve: `switch err { case nil: ...; case io.EOF: return nil; default: return s.sendError(err) }` *)\n")
 	g.p("Definition sv_serve_eof_identity : bool := %v. (* the peer's close is recognised by err == io.EOF *)\n", identity)
 	g.p("Definition sv_serve_switches : nat := %d.\nDefinition sv_serve_clauses : nat := %d.\n", switches, clauses)
+}
+
+// responseCheckerFunnel reads the receiver-call structure of responseChecker,
+// the wrapper through which a handler writes: EncodeToken updates the reply
+// detector and only then delegates to the embedded writer; every other method
+// that writes must hand the checker itself (rw) to the code that produces the
+// tokens, never the embedded writer (rw.TokenWriter), or what it writes is not
+// seen by the detector.
+func (g *gen) responseCheckerFunnel(f *ast.File) {
+	var methods []string
+	direct, funnel, delegates := 0, 0, 0
+	for _, d := range f.Decls {
+		fd, is := d.(*ast.FuncDecl)
+		if !is || fd.Recv == nil || len(fd.Recv.List) != 1 || fd.Body == nil {
+			continue
+		}
+		star, is := fd.Recv.List[0].Type.(*ast.StarExpr)
+		if !is {
+			continue
+		}
+		if id, is := star.X.(*ast.Ident); !is || id.Name != "responseChecker" {
+			continue
+		}
+		recv := ""
+		if len(fd.Recv.List[0].Names) == 1 {
+			recv = fd.Recv.List[0].Names[0].Name
+		}
+		embedded := 0 // mentions of <recv>.TokenWriter
+		passesSelf := false
+		ast.Inspect(fd.Body, func(n ast.Node) bool {
+			switch x := n.(type) {
+			case *ast.SelectorExpr:
+				if id, is := x.X.(*ast.Ident); is && id.Name == recv && x.Sel.Name == "TokenWriter" {
+					embedded++
+				}
+			case *ast.CallExpr:
+				for _, a := range x.Args {
+					if id, is := a.(*ast.Ident); is && id.Name == recv {
+						passesSelf = true
+					}
+				}
+			}
+			return true
+		})
+		if fd.Name.Name == "EncodeToken" {
+			delegates = embedded
+			continue
+		}
+		methods = append(methods, fd.Name.Name)
+		direct += embedded
+		if passesSelf {
+			funnel++
+		}
+	}
+	g.p("(* session.go responseChecker: the methods a handler can write through, besides EncodeToken *)\n")
+	g.p("Definition sv_rc_write_methods : list bytes := [")
+	for i, m := range methods {
+		if i > 0 {
+			g.p("; ")
+		}
+		g.p("hex \"%s\"", hexOf([]byte(m)))
+	}
+	g.p("]. (* %v *)\n", methods)
+	g.p("Definition sv_rc_funnelled : nat := %d. (* of these, how many hand the checker itself to the encoder *)\n", funnel)
+	g.p("Definition sv_rc_direct_uses : nat := %d. (* mentions of the embedded writer outside EncodeToken *)\n", direct)
+	g.p("Definition sv_rc_delegations : nat := %d. (* mentions of the embedded writer in EncodeToken *)\n", delegates)
 }
